@@ -163,9 +163,15 @@ TEXTS = {
                 "followed by any non-empty suffix is Err(ParseBinaryError); no proper prefix of an accepted file is accepted (error or panic, "
                 "never an ontology) — both for v1, v2 and v3 alike, by a lock-step simulation of the section reads; every input shorter than "
                 "the minimum header is Err(ParseBinaryError); magic + version byte other than 2/3 is Err(NotImplemented); the emitted version is "
-                "an accepted one (constants regenerated from the source). PARTIAL: 'a file laid out according to the documented v1/v2/v3 "
-                "tables decodes to the facts it encodes' is decided by running the transcription and the crate on files produced by an "
-                "independent encoder (harness/src/bin.rs) at EVERY truncation offset, with suffixes and foreign version bytes, and by spec_C08.",
+                "an accepted one (constants regenerated from the source). WHAT AN ACCEPTED BYTE STRING IS (v1, v2, v3; any bytes whose parent "
+                "section names only stored terms and whose annotation sections repeat no record id): C08_accepted_file_describes_result "
+                "(header version, one term per term record with id / name / flags, one direct link per pair of the parent section, records "
+                "in file order, no ORPHA records from v1 / v2 — relative to bin_sections / parse_parents / parse_records, the reading of "
+                "the layout), C08_accepted_file_is_wellformed (exact caches, children = parents^-1, acyclic, inherited annotation sets, "
+                "IC = calculate(N, n)), C08_record_order_irrelevant, C08_accepted_file_reserialises, C08_conditions_satisfiable. "
+                "Executed additionally: files produced by an independent encoder (harness/src/bin.rs) at EVERY truncation offset, with "
+                "suffixes, foreign version bytes and 12-24 single-byte mutants each (whole outcome compared; the evaluator decode_g is "
+                "proved equal to decode), and spec_C08 on the crate's observation.",
         "design_ref": "DESIGN.md §4 C08, §9", "note": NOTE_COMMON + "harness/src/bin.rs defines the documented layouts.", "technique": TECH,
     },
     "C09": {
